@@ -55,8 +55,8 @@ def jobs(tier):
                 ("VNACAL_E12", 1, 1, 1, 0, 0, 0), ("VNACAL_E12", 2, 2, 1, 0, 0, 0), ("VNACAL_UE14", 2, 2, 1, 0, 0, 0),
                 ("VNACAL_TE10", 2, 2, 1, 0, 0, 0)]
     if tier != "quick":
-        variants += [("VNACAL_E12", 2, 1, 1, 0, 0, 0), ("VNACAL_UE10", 2, 2, 1, 0, 0, 0), ("VNACAL_T16", 2, 2, 1, 0, 0, 0),
-                     ("VNACAL_U16", 2, 2, 0, 0, 0, 0), ("VNACAL_T8", 2, 2, 1, 1, 0, 0), ("VNACAL_U8", 1, 1, 1, 1, 0, 0), ("VNACAL_TE10", 1, 1, 1, 0, 0, 0),
+        variants += [("VNACAL_E12", 2, 1, 1, 0, 0, 0), ("VNACAL_UE10", 2, 2, 1, 0, 0, 0),
+                     ("VNACAL_T8", 2, 2, 1, 1, 0, 0), ("VNACAL_U8", 1, 1, 1, 1, 0, 0), ("VNACAL_TE10", 1, 1, 1, 0, 0, 0),
                      ("VNACAL_UE10", 1, 1, 1, 0, 0, 0), ("VNACAL_T8", 1, 1, 0, 1, 0, 0), ("VNACAL_UE14", 1, 1, 1, 1, 0, 0)]
     for (t, r, c, prior, unk, merr, trl) in variants:
         d = C20.CUT + ["-DCAL_TYPE=%s" % t, "-DCAL_ROWS=%d" % r, "-DCAL_COLS=%d" % c, "-DPRIOR=%d" % prior, "-DIS_TRL=%d" % trl] + \
